@@ -122,12 +122,12 @@ func c01r8(c *Ctx) {
 		var ships []EffectSite
 		for _, s := range c.P.EffectSites(r.Entry, "otdata", isData) {
 			st := s.In.(*ssa.Store)
-			cv, ok := st.Val.(*ssa.Convert)
-			if !ok {
+			ds := dataStringOf(c.P, st)
+			if ds == nil {
 				continue
 			}
 			var heads []string
-			flattenString(s.Env, cv.X, sep, &heads, 0, map[*ssa.Phi]bool{})
+			flattenString(s.Env, ds, sep, &heads, 0, map[*ssa.Phi]bool{})
 			if len(heads) == 1 && heads[0] == name {
 				ships = append(ships, s)
 			}
@@ -281,7 +281,10 @@ func c01r12(c *Ctx) {
 				// len(data) <= 0
 				return len(f.LE.c) == 1 && f.LE.k == 0 && f.LE.c["len("+dataT+")"] == -1
 			}
-			if !f.Pos && f.Call == ssa.CallInstruction(read) && strings.HasPrefix(f.Atom, "ok:") {
+			if !f.Pos && strings.HasPrefix(f.Atom, "ok:AccountDataHandler.RetrieveValue(") {
+				return true // the function's own storage read failed (it makes exactly one kind of read)
+			}
+			if !f.Pos && f.Atom == nilAtom(e.Term(read)+"#1") {
 				return true
 			}
 			return f.Pos && f.Atom == "zero(len("+dataT+"))"
